@@ -161,13 +161,13 @@ def parent(args):
             total.note("known_finding_no_longer_reproduces")
             print(f"NOTE: listed finding no longer reproduces on this tree: {ent['what']}")
         for v in vs:
-            if v["sig"] != ent["sig"] and v["sig"] not in {k["sig"] for k in known}:
+            if v["sig"] != ent["sig"] and v["sig"] not in {k["sig"] for k in known} | {a for k in known for a in k.get("also", [])}:
                 reported.append((write_replay(pid, ent["witness"], v), v))
     for ent in fixed:
         vs, _ = replay_case(mod, ent["witness"], args.tier, args.seed)
         total.mon("fixed_witness_replays")
         for v in vs:
-            if v["sig"] not in {k["sig"] for k in known}:
+            if v["sig"] not in {k["sig"] for k in known} | {a for k in known for a in k.get("also", [])}:
                 reported.append((write_replay(pid, ent["witness"], v), v))
 
     # 2. workers
@@ -220,10 +220,13 @@ def parent(args):
 
     # 3. classify violations
     known_sigs = {k["sig"]: k for k in known}
+    for k in known:
+        for a in k.get("also", []):        # the same mechanism seen at another observation point
+            known_sigs[a] = k
     new_by_sig = {}
     for v in total.violations:
         if v["sig"] in known_sigs:
-            total.known_hits[v["sig"]] += 1
+            total.known_hits[known_sigs[v["sig"]]["sig"]] += 1
         else:
             new_by_sig.setdefault(v["sig"], []).append(v)
     for sig, vs in new_by_sig.items():
